@@ -126,7 +126,9 @@ def run(tier):
                  [(g[0] + "_net",) + g[1:] + (["hold1", "drop"], 1, 1) for g in ROLE_CFGS] + \
                  [(ROLE_CFGS[0][0] + "_adv2",) + ROLE_CFGS[0][1:] + ([], 0, 2)]          # pairs of adversary operations
     else:
-        groups = [g + ([], 0, 1) for g in ROLE_CFGS]
+        # client family with pairs of adversary operations (all model-checked, singles all executed, a fixed sample
+        # of the pairs executed); server family with single operations
+        groups = [ROLE_CFGS[0] + ([], 0, 2), ROLE_CFGS[1] + ([], 0, 1)]
 
     # 1. the intended design (client authentication included): Auth, AuthKey, FailClosed hold for both roles
     for label, fpcs, fpss, idcs, idss in (FULL_CFGS if thorough else ROLE_CFGS):
@@ -147,7 +149,8 @@ def run(tier):
         s1 = os.path.join(d, f"sched_{label}.ndjson")
         o1 = os.path.join(d, f"out_{label}.ndjson")
         r = _run_tlc(ck, f"pinned_{label}", spec="Spec", deviations=dc.OPEN_DEVIATIONS, adv_kinds=ADV, adv_budget=group_adv,
-                     net_kinds=net_kinds, net_budget=net_budget, max_ord=1, fpcs=fpcs, fpss=fpss, idcs=idcs, idss=idss,
+                     net_kinds=net_kinds, net_budget=net_budget, max_ord=2 if net_budget else 1, fpcs=fpcs, fpss=fpss,
+                     idcs=idcs, idss=idss,
                      deadline=True, invariants=["AuthClient", "AuthKeyClient", "FailClosed", "KeyAgree", "EmitOutcome"],
                      emit="EmitSched", tags=("SCHED", "OUT"), sinks={"SCHED": s1, "OUT": o1}, workers=1, timeout=2400)
         exhaustive = exhaustive and r["finished"]
@@ -167,6 +170,11 @@ def run(tier):
         if rec not in allowed[dc.sched_id(o["cfg"], o["ops"])]:
             allowed[dc.sched_id(o["cfg"], o["ops"])].append(rec)
     scenarios = dc.scenarios_from_sched(sched_rows, TICK_MS, DEADLINE_MS)
+    if not thorough:
+        multi = [x for x in scenarios if len(x["tlc_ops"]) > 1]
+        keep = {x["id"] for x in multi[:: max(1, len(multi) // 120)][:120]}       # ids are content hashes: a fixed sample
+        scenarios = [x for x in scenarios if len(x["tlc_ops"]) <= 1 or x["id"] in keep]
+        ck.notes.append(f"pairs of adversary operations: {len(multi)} model-checked, {len(keep)} executed")
     outcomes = dc.run_scenarios(ck, scenarios, tier, nproc=16 if not thorough else 12, timeout=900 if not thorough else 3000)
     # An endpoint that is still New/Handshaking when the harness gave up (deadline + 12 s) was starved of CPU, not
     # judged: those schedules are run again on their own, twice if need be, before anything is said about them.
